@@ -574,7 +574,11 @@ class ComponentFilter:
         # XML elements also match the targeted calendar component;
         for child in self.children:
             if isinstance(child, ComponentFilter):
-                if not any(child.match(c, tzify) for c in comp.subcomponents):
+                if child.is_not_defined:
+                    # matches if no component of that type exists in this scope
+                    if any(c.name == child.name for c in comp.subcomponents):
+                        return False
+                elif not any(child.match(c, tzify) for c in comp.subcomponents):
                     return False
             elif isinstance(child, PropertyFilter):
                 if not child.match(comp, tzify):
